@@ -6,6 +6,7 @@ CONSTANTS MaxInt = 5
  EmitPaths = FALSE
 SPECIFICATION Spec
 VIEW view
+ACTION_CONSTRAINT Emit
 INVARIANTS InvDesc InvOwed
 PROPERTIES FailedCallChangesNothing FreshDesc
 CHECK_DEADLOCK FALSE
